@@ -121,20 +121,31 @@ func toDB(c c04.Case) c04.Case {
 
 func main() {
 	c04.Main(c04.Config{
-		Exec: map[string]func(c04.Case) c04.Obs{"dbopen": execOpen, "dbtree": execTree},
+		Exec: map[string]func(c04.Case) c04.Obs{"dbopen": execOpen, "dbtree": execTree, "dbchunk": func(c c04.Case) c04.Obs {
+			return c04.ChunkObs(c04.ChunkFns{Lookup: db.VerifChunkEntryForOffsetC04, Select: db.VerifFileReaderSelectC04}, c)
+		}},
 		Corpus: func() []c04.Case {
 			var cs []c04.Case
+			k := 0
 			for _, c := range c04.OpenCorpus() {
 				if c.Kind == "open" {
-					cs = append(cs, toDB(c))
+					// the hand-written cases and every second case of the footer sweep (db.NewReader runs the same
+					// ParseFooter implementations; what differs is its own loop around them)
+					if k++; k < 12 || k%2 == 0 {
+						cs = append(cs, toDB(c))
+					}
 				}
 			}
 			for _, c := range c04.TreeCorpus() {
 				cs = append(cs, toDB(c))
 			}
+			cs = append(cs, c04.ChunkCorpus("dbchunk")...)
 			return cs
 		},
 		Gen: func(r *hx.Rng, i int) c04.Case {
+			if r.Chance(1, 4) {
+				return c04.GenChunk(r, "dbchunk")
+			}
 			if r.Chance(1, 3) {
 				return toDB(c04.GenOpen(r))
 			}
@@ -153,6 +164,8 @@ func main() {
 				}
 			case "dbopen":
 				t = c04.CoqOpenAs("CDbOpen", c, o)
+			case "dbchunk":
+				t = c04.CoqChunkAs("CDbChunk", c, o)
 			default:
 				t = fmt.Sprintf("(* unexpected kind %s *)", c.Kind)
 			}
